@@ -184,8 +184,6 @@ func NewSoftwrapScanner(s []vaxis.Cell, width uint16) SoftwrapScanner {
 
 // Returns the first line segment in s.cells
 func firstLineSegment(cells []vaxis.Cell) ([]vaxis.Cell, bool) {
-	var rest string
-
 	for i, cell := range cells {
 		if i == len(cells)-1 {
 			// last one
@@ -207,12 +205,12 @@ func firstLineSegment(cells []vaxis.Cell) ([]vaxis.Cell, bool) {
 			return cells[:i+2], true
 		}
 
-		_, rest, _, _ = uniseg.FirstLineSegmentInString(
+		_, rest, mustBreak, _ := uniseg.FirstLineSegmentInString(
 			cell.Grapheme+next.Grapheme,
 			-1,
 		)
 		if len(rest) > 0 {
-			return cells[:i+1], false
+			return cells[:i+1], mustBreak
 		}
 	}
 	return cells, false
